@@ -46,6 +46,102 @@ def _find(em, rd, call, args, obj):
     return None
 
 
+def _strip(e, kinds=('ImplicitCastExpr', 'ParenExpr', 'MaterializeTemporaryExpr', 'ExprWithCleanups', 'CXXBindTemporaryExpr', 'CXXFunctionalCastExpr')):
+    from .astload import inner
+    while e.get('kind') in kinds and inner(e):
+        e = inner(e)[-1]
+    if e.get('kind') == 'CXXConstructExpr' and len(inner(e)) == 1:      # copy/move of the closure object
+        return _strip(inner(e)[0], kinds)
+    return e
+
+
+def _lambda_parts(em, e):
+    """(LambdaExpr node, call operator decl, parameter decl) of a predicate argument written as a one-parameter lambda"""
+    from .astload import inner
+    lam = _strip(e)
+    if lam.get('kind') != 'LambdaExpr':
+        return None
+    rec = inner(lam)[0]
+    op = None
+    for m in inner(rec):
+        if m.get('kind') == 'CXXMethodDecl' and m.get('name') == 'operator()':
+            op = m
+    if op is None:
+        return None
+    ps = [c for c in inner(op) if c.get('kind') == 'ParmVarDecl']
+    if len(ps) != 1:
+        return None
+    return lam, op, ps[0]
+
+
+def _equality_key(em, lam, op, parm):
+    """if the predicate is `[key](T el) { return el == key; }` (either order), the AST node of `key`, else None"""
+    from .astload import inner
+    body = [c for c in inner(op) if c.get('kind') == 'CompoundStmt']
+    if not body or len(inner(body[0])) != 1 or inner(body[0])[0].get('kind') != 'ReturnStmt':
+        return None
+    e = _strip(inner(inner(body[0])[0])[0])
+    if e.get('kind') != 'BinaryOperator' or e.get('opcode') != '==':
+        return None
+    a, b = [_strip(x) for x in inner(e)]
+
+    def is_parm(x):
+        return x.get('kind') == 'DeclRefExpr' and x['referencedDecl'].get('id') == parm['id']
+
+    def is_capture(x):
+        return x.get('kind') == 'DeclRefExpr' and x['referencedDecl'].get('kind') in ('VarDecl', 'ParmVarDecl') and not is_parm(x)
+    if is_parm(a) and is_capture(b):
+        return b
+    if is_parm(b) and is_capture(a):
+        return a
+    return None
+
+
+def _alg(which):
+    def f(em, rd, call, args, obj):
+        # std::find_if / any_of / none_of / all_of over std::vector<void*> iterators (M-vec) with a one-parameter lambda
+        from . import models
+        from .astload import inner
+        if obj is not None or len(args) != 3 or not (models._is_vecit(em, args[0]) and models._is_vecit(em, args[1])):
+            return None
+        lp = _lambda_parts(em, args[2])
+        if lp is None:
+            raise ExtractError('std::%s with a predicate that is not a one-parameter lambda' % which)
+        lam, op, parm = lp
+        key = _equality_key(em, lam, op, parm)
+        if key is not None and which in ('find_if', 'any_of', 'none_of'):
+            # searching for an element equal to a captured value IS std::find: the contract model of M-vec applies
+            em.lowerings['M-vec(std::%s with an equality predicate -> std::find)' % which] += 1
+            em.extern_funcs['vec_find'] = True
+            b, e_ = em.E(args[0]), em.E(args[1])
+            if which == 'find_if':
+                return 'vec_find(%s, %s, %s)' % (b, e_, em.E(key))
+            return '({ struct M_vecit_voidp __e = %s; (vec_find(%s, __e, %s).idx %s __e.idx); })' % (e_, b, em.E(key), '!=' if which == 'any_of' else '==')
+        # general predicate: an index loop in the caller, hoisted in front of the statement; its loop contract is the instance's
+        fn, ind = em.hoist(call)
+        em.algn = getattr(em, 'algn', 0) + 1
+        k = em.algn
+        p = '  ' * ind
+        clos = em.E(args[2])
+        ctype = clos[clos.index('(struct ') + 1:clos.index(')')]
+        opname = em.need(em.tu.funcs.get(op['id'], op))
+        stop = '' if which in ('find_if', 'any_of') else '!'
+        if which == 'none_of':
+            stop = ''
+        s = p + 'struct M_vecit_voidp __alg%d_b = %s; struct M_vecit_voidp __alg%d_e = %s; %s __alg%d_p = %s;\n' % (k, em.E(args[0]), k, em.E(args[1]), ctype, k, clos)
+        s += p + 'struct M_vec_voidp *__alg%d_r = __alg%d_b.v; unsigned long __alg%d_i = __alg%d_b.idx;\n' % (k, k, k, k)
+        s += p + 'for (; __alg%d_i < __alg%d_e.idx; __alg%d_i++)\n' % (k, k, k)
+        s += em.loop_contract(fn, '__alg%d_i' % k, '__alg%d_r' % k)
+        s += p + '{\n' + p + '  if (%s%s(&__alg%d_p, __alg%d_r->elem[__alg%d_i])) { break; }\n' % (stop, opname, k, k, k) + p + '}\n'
+        em.pre_stmts.append(s)
+        em.lowerings['M-vec(std::%s -> index loop in the caller)' % which] += 1
+        if which == 'find_if':
+            return '((struct M_vecit_voidp){ __alg%d_r, __alg%d_i })' % (k, k)
+        found = '(__alg%d_i < __alg%d_e.idx)' % (k, k)
+        return found if which == 'any_of' else '(!%s)' % found
+    return f
+
+
 def _make_pair(em, rd, call, args, obj):
     if obj is not None or len(args) != 2:
         return None
@@ -55,10 +151,14 @@ def _make_pair(em, rd, call, args, obj):
 
 
 def _uncaught(em, rd, call, args, obj):
-    # std::uncaught_exceptions(): whether an exception is in flight is not known to a function contract -> arbitrary
+    # std::uncaught_exceptions(): under L-throw (opt exc_model) the ghost flag says whether an exception is in flight; without it
+    # every modelled execution is a normally returning one (abort points are cut off by the dynamic_check contract), so it is 0
     if obj is None and not args:
-        em.lowerings['M-exc(std::uncaught_exceptions -> arbitrary value)'] += 1
-        return 'vstd_uncaught_exceptions()'
+        if em.opts.get('exc_model'):
+            em.lowerings['M-exc(std::uncaught_exceptions -> the ghost flag of L-throw)'] += 1
+            return '((int)g_exc)'
+        em.lowerings['M-exc(std::uncaught_exceptions -> 0: only normally returning executions are modelled)'] += 1
+        return '((int)0)'
     return None
 
 
@@ -124,6 +224,10 @@ MODELS = {
     'uncaught_exception': _uncaught,
     'make_pair': _make_pair,
     'find': _find,
+    'find_if': _alg('find_if'),
+    'any_of': _alg('any_of'),
+    'none_of': _alg('none_of'),
+    'all_of': _alg('all_of'),
     'min': _limits('min'),
     'max': _limits('max'),
     'memcpy': _libc('vstd_memcpy'),
